@@ -535,3 +535,256 @@ Lemma strace_parse_all_independent wb ops st1 st2 i :
 Proof. cbn [strace]. rewrite (sstep_parse_all_independent st1 st2). reflexivity. Qed.
 
 End Workbook.
+
+(* ====================================================================================== *)
+(* The code in /repo today: the regenerated row hooks and block flag.                      *)
+(* ====================================================================================== *)
+Definition s_add_to_group : str := [97; 100; 100; 95; 116; 111; 95; 103; 114; 111; 117; 112]%N.
+Definition s_remove_from_group : str := [114; 101; 109; 111; 118; 101; 95; 102; 114; 111; 109; 95; 103; 114; 111; 117; 112]%N.
+Definition s_split_by_group : str := [115; 112; 108; 105; 116; 95; 98; 121; 95; 103; 114; 111; 117; 112]%N.
+Definition s_start_new_flow : str := [115; 116; 97; 114; 116; 95; 110; 101; 119; 95; 102; 108; 111; 119]%N.
+Definition s_send_message : str := [115; 101; 110; 100; 95; 109; 101; 115; 115; 97; 103; 101]%N.
+
+Definition hook_entry (e : str * (N * (str * (bool * bool)))) : rhook :=
+  {| h_shape := fst (snd e); h_atype := fst (snd (snd e)); h_rec := fst (snd (snd (snd e))); h_carry := snd (snd (snd (snd e))) |}.
+
+(* what the proofs need of a row hook: a row type that creates a reference records a truthy obj_id
+   into the container of its FlowParser; a group-action row also puts it on the Group object; the
+   action / test type it creates is one the container's record and assign hooks visit, with the
+   same kind of reference *)
+Definition hook_ok (h : rhook) : bool :=
+  match h_shape h with
+  | 0%N => true
+  | 1%N => h_rec h && h_carry h && N.eqb (assoc_n R (h_atype h)) 1
+  | 2%N => h_rec h && N.eqb (assoc_n R (h_atype h)) 2
+  | 3%N => h_rec h && mem_str Rc (h_atype h)
+  | _ => false
+  end.
+
+Definition sheet_tables_ok : bool :=
+  forallb (fun e => hook_ok (hook_entry e)) uuid_row_hooks
+  && N.eqb (h_shape (hook_of uuid_row_hooks s_add_to_group)) 1
+  && N.eqb (h_shape (hook_of uuid_row_hooks s_remove_from_group)) 1
+  && N.eqb (h_shape (hook_of uuid_row_hooks s_start_new_flow)) 2
+  && N.eqb (h_shape (hook_of uuid_row_hooks s_split_by_group)) 3.
+
+Lemma sheet_tables_ok_true : sheet_tables_ok = true.
+Proof. vm_compute. reflexivity. Qed.
+
+Lemma hook_of_cases tbl ty : hook_of tbl ty = no_hook \/ exists e, In e tbl /\ hook_of tbl ty = hook_entry e.
+Proof.
+  induction tbl as [|[t [s [a [r c]]]] rest IH]; cbn; [left; reflexivity|].
+  destruct (str_eqb t ty).
+  - right. exists (t, (s, (a, (r, c)))). split; [left; reflexivity|reflexivity].
+  - destruct IH as [IH|(e & He & IH)]; [left; exact IH|right; exists e; split; [right; exact He|exact IH]].
+Qed.
+
+Lemma hook_ok_all ty : hook_ok (hook_of uuid_row_hooks ty) = true.
+Proof.
+  pose proof sheet_tables_ok_true as H. unfold sheet_tables_ok in H.
+  do 4 (apply andb_prop in H as [H _]). rewrite forallb_forall in H.
+  destruct (hook_of_cases uuid_row_hooks ty) as [->|(e & He & ->)]; [reflexivity|apply H, He].
+Qed.
+
+Definition ref_kind (ty : str) : option kind := kind_of_shape (h_shape (hook_of uuid_row_hooks ty)).
+Definition sheet_honoured (ty : str) (b : bool) : bool := honoured uuid_block_shared (hook_of uuid_row_hooks ty) b.
+
+Lemma hook_facts ty k : ref_kind ty = Some k ->
+  h_rec (hook_of uuid_row_hooks ty) = true /\ hook_linked R (hook_of uuid_row_hooks ty)
+  /\ (h_shape (hook_of uuid_row_hooks ty) = 1%N -> carries_ref (hook_of uuid_row_hooks ty) = true).
+Proof.
+  unfold ref_kind. intros Hk. pose proof (hook_ok_all ty) as H. unfold hook_ok in H. unfold hook_linked, carries_ref.
+  destruct (h_shape (hook_of uuid_row_hooks ty)) as [|p]; [discriminate|].
+  destruct p as [[|p|]|[|p|]|]; try discriminate.
+  - apply andb_prop in H as [H _]. split; [exact H|]. split; [exact I|discriminate].
+  - apply andb_prop in H as [H1 H2]. apply N.eqb_eq in H2. split; [exact H1|]. split; [exact H2|discriminate].
+  - apply andb_prop in H as [H1 H2]. apply andb_prop in H1 as [H1 H3]. apply N.eqb_eq in H2.
+    split; [exact H1|]. split; [exact H2|]. intros _. rewrite H3. reflexivity.
+Qed.
+
+Lemma sheet_honoured_toplevel ty k : ref_kind ty = Some k -> sheet_honoured ty false = true.
+Proof. intros Hk. destruct (hook_facts _ _ Hk) as (Hr & _). unfold sheet_honoured, honoured. rewrite Hr. reflexivity. Qed.
+
+Lemma sheet_honoured_group_action ty b : h_shape (hook_of uuid_row_hooks ty) = 1%N -> sheet_honoured ty b = true.
+Proof.
+  intros Hs. assert (Hk : ref_kind ty = Some KGroup) by (unfold ref_kind; rewrite Hs; reflexivity).
+  destruct (hook_facts _ _ Hk) as (_ & _ & Hc). unfold sheet_honoured, honoured. rewrite (Hc Hs). apply orb_true_r.
+Qed.
+
+Lemma group_action_rows : h_shape (hook_of uuid_row_hooks s_add_to_group) = 1%N /\ h_shape (hook_of uuid_row_hooks s_remove_from_group) = 1%N
+  /\ h_shape (hook_of uuid_row_hooks s_start_new_flow) = 2%N /\ h_shape (hook_of uuid_row_hooks s_split_by_group) = 3%N.
+Proof.
+  pose proof sheet_tables_ok_true as H. unfold sheet_tables_ok in H.
+  apply andb_prop in H as [H H4]. apply andb_prop in H as [H H3]. apply andb_prop in H as [H H2]. apply andb_prop in H as [_ H1].
+  apply N.eqb_eq in H1, H2, H3, H4. auto.
+Qed.
+
+(* ---- the theorems of props/C06.v, sheet level ---- *)
+(* an honoured obj_id — [sheet_honoured ty b]: the row type records it and the row is not inside an
+   insert_as_block template (or blocks share the container), or the row type puts it on the object
+   it creates — is the uuid of its name everywhere in the validated container *)
+Theorem sheet_explicit_wins wb st st' fs it b ty n u k :
+  sheet_parse_all wb = Ok st -> validate st = Ok st' ->
+  In fs (wb_flows wb) -> In it (fs_items fs) -> row_in it b ty n u -> truthy u = true ->
+  ref_kind ty = Some k -> sheet_honoured ty b = true -> NoDup (map fs_name (wb_flows wb)) ->
+  dget (sel k (st_d st')) n = Some u /\ forall u', In (k, (n, u')) (occs (st_c st')) -> u' = u.
+Proof.
+  intros H Hv Hfs Hit Hrow Ht Hk Hh Hnd. destruct (hook_facts _ _ Hk) as (_ & Hl & _).
+  apply (sheet_explicit_wins_g uuid_row_hooks uuid_block_shared _ _ _ _ _ _ _ _ _ _ H Hv Hfs Hit Hrow Ht Hk Hl).
+  unfold sheet_honoured, honoured in Hh. apply orb_prop in Hh as [Hh|Hh]; [left; exact Hh|right; split; assumption].
+Qed.
+
+(* a row written in the sheet itself (not in an inserted template), of ANY type that creates a
+   reference: no side condition on flow names *)
+Theorem sheet_toplevel_wins wb st st' fs ty n u cs k :
+  sheet_parse_all wb = Ok st -> validate st = Ok st' ->
+  In fs (wb_flows wb) -> In (IRow ty n u cs) (fs_items fs) -> truthy u = true -> ref_kind ty = Some k ->
+  dget (sel k (st_d st')) n = Some u /\ forall u', In (k, (n, u')) (occs (st_c st')) -> u' = u.
+Proof.
+  intros H Hv Hfs Hit Ht Hk. destruct (hook_facts _ _ Hk) as (Hr & Hl & _).
+  apply (sheet_explicit_wins_g uuid_row_hooks uuid_block_shared _ _ _ _ _ _ _ _ _ _ H Hv Hfs Hit (RI_row ty n u cs) Ht Hk Hl).
+  left. rewrite Hr. reflexivity.
+Qed.
+
+(* a group-action row (add_to_group, remove_from_group), wherever it sits — also inside inserted
+   templates, at any depth *)
+Theorem sheet_group_action_wins wb st st' fs it b ty n u :
+  sheet_parse_all wb = Ok st -> validate st = Ok st' ->
+  In fs (wb_flows wb) -> In it (fs_items fs) -> row_in it b ty n u -> truthy u = true ->
+  h_shape (hook_of uuid_row_hooks ty) = 1%N -> NoDup (map fs_name (wb_flows wb)) ->
+  dget (gd (st_d st')) n = Some u /\ forall u', In (KGroup, (n, u')) (occs (st_c st')) -> u' = u.
+Proof.
+  intros H Hv Hfs Hit Hrow Ht Hs Hnd.
+  assert (Hk : ref_kind ty = Some KGroup) by (unfold ref_kind; rewrite Hs; reflexivity).
+  apply (sheet_explicit_wins _ _ _ _ _ _ _ _ _ _ H Hv Hfs Hit Hrow Ht Hk (sheet_honoured_group_action _ _ Hs) Hnd).
+Qed.
+
+Theorem sheet_conflict_rejected wb fs1 it1 b1 ty1 fs2 it2 b2 ty2 n u1 u2 k :
+  In fs1 (wb_flows wb) -> In it1 (fs_items fs1) -> row_in it1 b1 ty1 n u1 -> truthy u1 = true ->
+  ref_kind ty1 = Some k -> sheet_honoured ty1 b1 = true ->
+  In fs2 (wb_flows wb) -> In it2 (fs_items fs2) -> row_in it2 b2 ty2 n u2 -> truthy u2 = true ->
+  ref_kind ty2 = Some k -> sheet_honoured ty2 b2 = true ->
+  NoDup (map fs_name (wb_flows wb)) -> u1 <> u2 ->
+  exists e, bind (sheet_parse_all wb) validate = Err e.
+Proof.
+  intros F1 I1 R1 T1 K1 H1 F2 I2 R2 T2 K2 H2 Hnd Hne.
+  destruct (hook_facts _ _ K1) as (_ & L1 & _). destruct (hook_facts _ _ K2) as (_ & L2 & _).
+  apply (sheet_conflict_rejected_g uuid_row_hooks uuid_block_shared wb fs1 it1 b1 ty1 fs2 it2 b2 ty2 n u1 u2 k); try assumption.
+  - unfold sheet_honoured, honoured in H1. apply orb_prop in H1 as [H1|H1]; [left; exact H1|right; split; assumption].
+  - unfold sheet_honoured, honoured in H2. apply orb_prop in H2 as [H2|H2]; [left; exact H2|right; split; assumption].
+Qed.
+
+Theorem sheet_history_wins st fs st1 ops st2 st3 it b ty n u k :
+  hist_inv st -> sheet_step st (SParse fs) = Ok st1 ->
+  In it (fs_items fs) -> row_in it b ty n u -> truthy u = true -> ref_kind ty = Some k -> sheet_honoured ty b = true ->
+  Forall sop_ok ops -> sheet_run ops st1 = Ok st2 -> validate st2 = Ok st3 ->
+  dget (sel k (st_d st3)) n = Some u /\ forall u', In (k, (n, u')) (occs (st_c st3)) -> u' = u.
+Proof.
+  intros Hi H Hit Hrow Ht Hk Hh Hok Hr Hv. destruct (hook_facts _ _ Hk) as (_ & Hl & _).
+  apply (sheet_history_wins_g uuid_row_hooks uuid_block_shared _ _ _ _ _ _ _ _ _ _ _ _ Hi H Hit Hrow Ht Hk Hl Hh Hok Hr Hv).
+Qed.
+
+Theorem sheet_parse_all_history_independent wb ops st1 st2 i :
+  sheet_trace (SParseAll wb :: ops) st1 i = sheet_trace (SParseAll wb :: ops) st2 i.
+Proof. apply strace_parse_all_independent. Qed.
+
+(* ---- rows inside insert_as_block whose type only RECORDS its obj_id: decided by the probed flag ---- *)
+Definition nG : name := [103]%N.
+Definition nF : name := [102]%N.
+Definition nF2 : name := [102; 50]%N.
+Definition uA : pyuuid := Some (Given [85; 49]%N).
+Definition uB : pyuuid := Some (Given [85; 50]%N).
+
+(* flow f: insert_as_block of a template whose only reference row is split_by_group g, obj_id U1 *)
+Definition block_witness_wb : workbook :=
+  {| wb_flows := [{| fs_name := nF; fs_items := [IBlock [IRow s_split_by_group nG uA [nG]]] |}];
+     wb_campaigns := []; wb_triggers := [] |}.
+(* the same, plus a second flow that gives g the uuid U2 in the sheet itself *)
+Definition block_conflict_wb : workbook :=
+  {| wb_flows := [{| fs_name := nF; fs_items := [IBlock [IRow s_split_by_group nG uA [nG]]] |};
+                  {| fs_name := nF2; fs_items := [IRow s_add_to_group nG uB []] |}];
+     wb_campaigns := []; wb_triggers := [] |}.
+
+(* the obj_id is replaced by an invented uuid / the conflicting workbook is accepted with U2 *)
+Definition sheet_block_witness : bool :=
+  match bind (sheet_parse_all block_witness_wb) validate with
+  | Ok st' => match dget (gd (st_d st')) nG with Some (Some (Fresh _)) => forallb (fun o => negb (pyuuid_eqb (snd (snd o)) uA)) (occs (st_c st')) | _ => false end
+  | Err _ => false
+  end
+  && match bind (sheet_parse_all block_conflict_wb) validate with
+     | Ok st' => match dget (gd (st_d st')) nG with Some v => pyuuid_eqb v uB | None => false end
+     | Err _ => false
+     end.
+
+Definition sheet_block_decided_b : bool := if uuid_block_shared then true else sheet_block_witness.
+Lemma sheet_block_decided_b_true : sheet_block_decided_b = true.
+Proof. vm_compute. reflexivity. Qed.
+
+Theorem sheet_block_rows_decided :
+  if uuid_block_shared
+  then forall wb st st' fs it b ty n u k,
+         sheet_parse_all wb = Ok st -> validate st = Ok st' ->
+         In fs (wb_flows wb) -> In it (fs_items fs) -> row_in it b ty n u -> truthy u = true -> ref_kind ty = Some k ->
+         dget (sel k (st_d st')) n = Some u /\ forall u', In (k, (n, u')) (occs (st_c st')) -> u' = u
+  else sheet_block_witness = true.
+Proof.
+  pose proof sheet_block_decided_b_true as W. unfold sheet_block_decided_b in W.
+  destruct uuid_block_shared eqn:E.
+  - intros wb st st' fs it b ty n u k H Hv Hfs Hit Hrow Ht Hk. destruct (hook_facts _ _ Hk) as (Hr & Hl & _).
+    apply (sheet_explicit_wins_g uuid_row_hooks uuid_block_shared _ _ _ _ _ _ _ _ _ _ H Hv Hfs Hit Hrow Ht Hk Hl).
+    left. rewrite Hr, E. destruct b; reflexivity.
+  - exact W.
+Qed.
+
+(* ---- non-vacuity ---- *)
+Definition ex_sheet_wb : workbook :=
+  {| wb_flows :=
+       [{| fs_name := nF;
+           fs_items := [IRow s_send_message [] None [];
+                        IRow s_split_by_group nG uA [nG; [104]%N];
+                        IBlock [IRow s_send_message [] None []; IBlock [IRow s_remove_from_group [104]%N uB []]];
+                        IRow s_start_new_flow [120]%N uB []] |};
+        {| fs_name := nF2; fs_items := [IRow s_add_to_group nG None []; IRow s_start_new_flow nF None []] |}];
+     wb_campaigns := [{| c_events := [{| e_type := [70]%N; e_flow := ([120]%N, None) |}]; c_group := ([104]%N, None) |}];
+     wb_triggers := [{| t_flow := (nF2, None); t_groups := [(nG, None)]; t_exclude := [] |}] |}.
+
+Example sheet_explicit_wins_nonvacuous : exists st st',
+  sheet_parse_all ex_sheet_wb = Ok st /\ validate st = Ok st'
+  /\ NoDup (map fs_name (wb_flows ex_sheet_wb))
+  /\ row_in (IBlock [IRow s_send_message [] None []; IBlock [IRow s_remove_from_group [104]%N uB []]]) true s_remove_from_group [104]%N uB
+  /\ sheet_honoured s_remove_from_group true = true /\ ref_kind s_remove_from_group = Some KGroup
+  /\ ref_kind s_split_by_group = Some KGroup /\ ref_kind s_start_new_flow = Some KFlow
+  /\ dget (gd (st_d st')) [104]%N = Some uB /\ dget (gd (st_d st')) nG = Some uA /\ dget (fd (st_d st')) [120]%N = Some uB
+  /\ length (occs (st_c st')) = 14%nat.
+Proof.
+  eexists. eexists. split; [vm_compute; reflexivity|]. split; [vm_compute; reflexivity|].
+  split; [repeat constructor; cbn; intuition discriminate|].
+  split; [eapply RI_block; [right; left; reflexivity|]; eapply RI_block; [left; reflexivity|]; constructor|].
+  repeat split; vm_compute; reflexivity.
+Qed.
+
+Definition ex_sheet_conflict_wb : workbook :=
+  {| wb_flows := [{| fs_name := nF; fs_items := [IRow s_split_by_group nG uA [nG]] |};
+                  {| fs_name := nF2; fs_items := [IBlock [IRow s_add_to_group nG uB []]] |}];
+     wb_campaigns := []; wb_triggers := [] |}.
+
+Example sheet_conflict_rejected_nonvacuous :
+  sheet_honoured s_split_by_group false = true /\ sheet_honoured s_add_to_group true = true
+  /\ NoDup (map fs_name (wb_flows ex_sheet_conflict_wb)) /\ uA <> uB
+  /\ bind (sheet_parse_all ex_sheet_conflict_wb) validate = Err EConflict.
+Proof.
+  split; [vm_compute; reflexivity|]. split; [vm_compute; reflexivity|].
+  split; [repeat constructor; cbn; intuition discriminate|]. split; [discriminate|vm_compute; reflexivity].
+Qed.
+
+Example sheet_history_wins_nonvacuous : exists st1 st2 st3,
+  hist_inv (init empty_container)
+  /\ sheet_step (init empty_container) (SParse {| fs_name := nF; fs_items := [IRow s_start_new_flow [120]%N uB []] |}) = Ok st1
+  /\ Forall sop_ok [SOp ORender; SOp (ORecordGroup nG uA); SParse {| fs_name := nF2; fs_items := [IRow s_start_new_flow [120]%N None []] |}]
+  /\ sheet_run [SOp ORender; SOp (ORecordGroup nG uA); SParse {| fs_name := nF2; fs_items := [IRow s_start_new_flow [120]%N None []] |}] st1 = Ok st2
+  /\ validate st2 = Ok st3 /\ dget (fd (st_d st3)) [120]%N = Some uB /\ length (occs (st_c st3)) = 5%nat.
+Proof.
+  eexists. eexists. eexists. split; [apply hist_inv_init; intros f []|].
+  split; [vm_compute; reflexivity|]. split; [repeat constructor|]. split; [vm_compute; reflexivity|].
+  split; [vm_compute; reflexivity|]. split; vm_compute; reflexivity.
+Qed.
